@@ -64,6 +64,15 @@ def run(tier):
                     # a second crash during the recovery run
                     for p2 in ("after_exec", "before_commit", "before_writerev"):
                         scs.append({"id": len(scs) + 1, "cfg": cfg, "crashes": [[p, n], [p2, 1]]})
+    # a long file interrupted twice (the second time during the recovery run, after it has made progress): what the resumed run records
+    # about the statements it applied must still allow the next run to continue
+    for mode in (("none",) if tier == "quick" else ("none", "file")):
+        cfg = {"mode": mode, "dir": [""], "nst": [4], "fail": [0, 0], "count": 0}
+        for p in ("after_exec", "after_writerev"):
+            for n in (1, 2, 3):
+                for p2 in ("after_exec", "before_writerev", "after_writerev"):
+                    for n2 in (1, 2):
+                        scs.append({"id": len(scs) + 1, "cfg": cfg, "crashes": [[p, n], [p2, n2]]})
     results = applycli.run_all(scs)
     d = vf.scratch("c10")
     try:
